@@ -21,6 +21,7 @@ fn dispatch(op: &str, a: &[&str]) -> String {
         "gf_divrow" => rs::gf_divrow(a),
         "gf_misc" => rs::gf_misc(a),
         "generator" => rs::generator(a),
+        "rs_decode" => rs::rs_decode(a),
         "decode_data" => dec::decode_data(a),
         "decode_str" => dec::decode_str(a),
         "read_eci" => dec::read_eci(a),
